@@ -41,7 +41,8 @@ def optics(any_norm=False, pol=None):
         "pol": pol if pol is not None else polarization(any_norm),
         # how the polarization is handed over: the (x, y) pair, or the same vector with an explicit zero z component
         # as a tuple, a list or an array
-        "pol_form": st.sampled_from(["xy", "xy", "xy", "xyz_tuple", "xyz_list", "xyz_array"]),
+        # or as an array labelled along 'vector' (what HoloPy itself keeps in an image's metadata), built by hand from the raw components
+        "pol_form": st.sampled_from(["xy", "xy", "xy", "xyz_tuple", "xyz_list", "xyz_array", "xyz_labelled"]),
     })
 
 
@@ -195,6 +196,9 @@ def polarization_argument(o):
         return [px, py, 0.0]
     if form == "xyz_array":
         return np.array([px, py, 0.0])
+    if form == "xyz_labelled":
+        import xarray as xr
+        return xr.DataArray(np.array([px, py, 0.0], dtype=float), dims="vector", coords={"vector": ["x", "y", "z"]})
     return (px, py)
 
 
